@@ -372,7 +372,12 @@ def gen_xpath(rng, u, all_chains, broken=0.06):
             fld = f if (f is not None and rng.random() < 0.55) else None
             if rng.random() < 0.08:
                 fld = rng.choice(fields)
-            steps.append(St(fld, idx_choice(i), cls_choice(node_cls(t))))
+            if p != pick[-1] and rng.random() < 0.12:
+                # a step that is `[]` alone: exactly one level, any field / index / class - not the `//` wildcard
+                # (seeded change C20-8)
+                steps.append(St(None, "empty", None))
+            else:
+                steps.append(St(fld, idx_choice(i), cls_choice(node_cls(t))))
             prev = p
     else:
         for _ in range(rng.choice([1, 1, 2, 2, 3, 4])):
@@ -381,6 +386,8 @@ def gen_xpath(rng, u, all_chains, broken=0.06):
                 if rng.random() < 0.1:
                     steps.append(EMPTY)
             steps.append(St(rng.choice(fields) if rng.random() < 0.4 else None, idx_choice(None), cls_choice(None)))
+            if rng.random() < 0.1:
+                steps.insert(len(steps) - 1, St(None, "empty", None))
     k = rng.random()
     f, i, c = steps[-1].args
     if k < broken / 2:
@@ -511,7 +518,7 @@ def impl(t, case):
         prune = lambda n: A(n) in prs
         filt = lambda n: A(n) not in fls
         S = lambda it: [obs(n) for n in it]
-        return Con("Trav",
+        res = Con("Trav",
                    S(start.dfs()), S(start.dfs(bottom_up=True)), S(start.bfs()),
                    S(start.dfs(prune=prune, filter=filt)), S(start.dfs(prune=prune, filter=filt, bottom_up=True)),
                    S(start.bfs(prune=prune, filter=filt)),
@@ -520,6 +527,8 @@ def impl(t, case):
                    S(start.bfs(prune=prune, filter=filt, skip_self=True)),
                    S(start.gather(classes if len(classes) > 1 else classes[0], exact_type=exact, extra_filter=filt, prune=prune)),
                    S(start.gather(classes, exact_type=not exact, skip_self=True)))
+        bad = _mutation_probe(start)
+        return Con("TraversalAfterMutation", bad) if bad else res
     if t.name == "C20X":
         nodes = [b.objs[n.args[0]] for n in iter_nodes(t.args[1])]
         if root.calculate_xpath() is not True:
@@ -536,6 +545,44 @@ def impl(t, case):
                 out.append(Con("M", [[A(n), bool(X.match(n))] for n in nodes]))
         return Con("XR", xs, out)
     raise ValueError("unknown case")
+
+
+def _field_walk(n):
+    """pre-order walk over the dataclass fields themselves (independent of the library's accessors)"""
+    import dataclasses
+
+    from pyoak.legacy.node import AwareASTNode
+
+    out = [n]
+    for f in dataclasses.fields(n):
+        v = getattr(n, f.name, None)
+        if isinstance(v, AwareASTNode):
+            out += _field_walk(v)
+        elif isinstance(v, (list, tuple)):
+            for x in v:
+                if isinstance(x, AwareASTNode):
+                    out += _field_walk(x)
+    return out
+
+
+def _mutation_probe(start):
+    """Implementation-only probe, run AFTER the compared traversals (which may have filled per-node caches): a child held in a
+    plain / optional field is replaced in place by a detached clone of itself; every traversal of the tree must then visit
+    exactly the nodes the fields hold now (seeded change C20-7: a child list memoised per node and not invalidated)."""
+    try:
+        cands = [x for x in start.dfs() if x is not start and x.parent is not None and x.parent_index is None]
+        for x in cands[:2]:
+            x.replace_with(x.duplicate(as_detached_clone=True))
+    except Exception:  # noqa: BLE001 - the probe does not apply (a legacy replace_with that refuses is C19's business)
+        return None
+    want = sorted(id(n) for n in _field_walk(start))
+    for name, it in (("dfs", start.dfs()), ("dfs(bottom_up)", start.dfs(bottom_up=True)), ("bfs", start.bfs())):
+        if sorted(id(n) for n in it) != want:
+            return name
+    from pyoak.legacy.node import AwareASTNode
+    if sorted(id(n) for n in start.gather(AwareASTNode)) != want:
+        return "gather"
+    return None
 
 
 def ASTNode_of(mod, name):
